@@ -25,6 +25,41 @@ def standard_programs(ctx, n_urls, n_progs, maxops=3):
     return progs
 
 
+def touched(prog):
+    """the same program with every intermediate value used (hashed, printed, compared with
+    itself, all accessors read) before the next instruction works on it; the pure model
+    ignores ["touch"], so any visible effect is a dependence on history"""
+    out = []
+    for i, ins in enumerate(prog):
+        out.append(ins)
+        if i + 1 < len(prog) and ins[0] != "touch":
+            out.append(["touch"])
+    return out
+
+
+def touch_invariance(ctx, name, progs, limit):
+    """each multi-step program with and without the touches: equal, same hash, not ordered,
+    and observed identically (implementation against itself, and against the model)"""
+    multi = [p for p in progs if len(p) > 1][:limit]
+    if not multi:
+        return
+    tp = [touched(p) for p in multi]
+    cmps = core.check_suite(ctx, name + "-compare", [("compare", [t, p]) for t, p in zip(tp, multi)], split=True)
+    o1 = observe(ctx, name + "-plain", multi)
+    o2 = observe(ctx, name + "-touched", tp)
+    for k in backends(cmps):
+        for n, p in enumerate(multi):
+            c = cmps[k][n]
+            if c.startswith("[") and c != "[ T F T F T T ]":
+                ctx.violation(kind="predicate-failure", suite=name, backend=k,
+                              predicate="a value derived from a used (hashed/printed/read) URL equals, and hashes like, the one derived from an unused URL",
+                              program=tp[n], impl=c)
+            elif o1[k][n] != o2[k][n]:
+                ctx.violation(kind="predicate-failure", suite=name, backend=k,
+                              predicate="observation of a derived URL does not depend on whether the intermediate URLs were used",
+                              program=tp[n], impl=o2[k][n][:600], plain=o1[k][n][:600])
+
+
 def observe(ctx, name, progs, profile=2, **kw):
     reqs = [("observe", [profile, p]) for p in progs]
     return core.check_suite(ctx, name, reqs, split=True,
